@@ -13,7 +13,8 @@ for d in DIRECTIVES:
 fn arm_enter_%(d)s<'a, N, T: AsRef<Path>, U: AsRef<Path>>(x: &'a N, $STATE, ret: &mut PreprocessedText, skip_whitespace: bool) -> (r: bool)
     where &'a N: VTryInto<Locate>
     requires old(ret).wf(), node_ok(x, s),
-    ensures copied(old(ret), final(ret), s, path.as_ref_spec().id(), x.fold().unwrap()),     //: C03.site.%(d)s-records-the-range-it-copies C03,C06
+    ensures appended(old(ret), final(ret), s, x.fold().unwrap()),     //: C06.site.%(d)s-copies-the-directive-text C06
+        recorded(old(ret), final(ret), path.as_ref_spec().id(), x.fold().unwrap()),     //: C03.site.%(d)s-records-the-range-it-copies C03
         r == true,                                                                            //: C06.site.%(d)s-suppresses-its-trailing-white-space C06
 {
     let mut skip_whitespace = skip_whitespace;
